@@ -23,6 +23,7 @@ import (
 	"time"
 
 	"github.com/pkg/errors"
+	kerrors "k8s.io/apimachinery/pkg/api/errors"
 	metav1 "k8s.io/apimachinery/pkg/apis/meta/v1"
 	"k8s.io/apimachinery/pkg/labels"
 	"k8s.io/client-go/tools/cache"
@@ -210,7 +211,21 @@ func (w *CronWorker) refreshUpdatedJobConfigs(now time.Time) {
 				)
 				continue
 			}
-			if _, err := w.schedule.Bump(jobConfig, now); err != nil {
+
+			// Look up the latest version of the JobConfig. If it was deleted there is
+			// nothing to add back, otherwise a JobConfig that is later created with the
+			// same name would be scheduled using the deleted JobConfig's next schedule time.
+			current, err := w.jobconfigInformer.Lister().JobConfigs(jobConfig.Namespace).Get(jobConfig.Name)
+			if err != nil {
+				if !kerrors.IsNotFound(err) {
+					klog.ErrorS(err, "croncontroller: cannot get updated job config",
+						"namespace", jobConfig.Namespace,
+						"name", jobConfig.Name,
+					)
+				}
+				continue
+			}
+			if _, err := w.schedule.Bump(current, now); err != nil {
 				klog.ErrorS(err, "croncontroller: cannot bump updated job config in heap",
 					"namespace", jobConfig.Namespace,
 					"name", jobConfig.Name,
